@@ -11,6 +11,22 @@ class Deadlock(Exception):
     pass
 
 
+class Blocked(Exception):
+    """The thread that was granted its step sleeps without using any CPU while every other thread is parked at a step point by the
+    scheduler: under this schedule it waits for something only a parked thread could release, so the schedule can never complete."""
+    pass
+
+
+def _thread_cpu_state(native_id):
+    """(state letter, utime + stime in clock ticks) of one thread of this process, from /proc; None when unavailable."""
+    try:
+        with open('/proc/self/task/%d/stat' % native_id) as f:
+            rest = f.read().rsplit(')', 1)[1].split()
+        return rest[0], int(rest[11]) + int(rest[12])
+    except Exception:
+        return None
+
+
 class Scheduler(object):
     def __init__(self, nthreads, prefix, watchdog_s=60.0, chooser=None):
         self.chooser = chooser
@@ -25,18 +41,49 @@ class Scheduler(object):
         self.cv = threading.Condition()
         self.watchdog_s = watchdog_s
         self.handoffs = 0
+        self.native = {}         # tid -> (native thread id, ident)
+        self.free_run = False    # set once a schedule is abandoned: every step is granted at once so that the threads can end
+        self.blocked = None      # description of the blocked thread when the schedule could not complete
 
     # --- worker side
     def step(self, tid, who, op):
         with self.cv:
+            if self.free_run:
+                return
             self.waiting[tid] = (who, op)
             self.cv.notify_all()
             t0 = time.time()
             while self.turn != tid:
+                if self.free_run:
+                    self.waiting.pop(tid, None)
+                    return
                 if not self.cv.wait(1.0) and time.time() - t0 > self.watchdog_s:
                     raise Deadlock('thread %d starved at %s %s' % (tid, who, op))
             self.turn = None
             del self.waiting[tid]
+
+    def _diagnose_block(self, running):
+        """Called by the controller (without the condition) when the granted thread has not come back for a while."""
+        nat = self.native.get(running)
+        if nat is None:
+            return None
+        samples = []
+        frames = []
+        for _ in range(3):
+            samples.append(_thread_cpu_state(nat[0]))
+            fr = sys._current_frames().get(nat[1])
+            stack = []
+            while fr is not None and len(stack) < 6:
+                stack.append('%s:%d %s' % (fr.f_code.co_filename.rsplit('/', 1)[-1], fr.f_lineno, fr.f_code.co_name))
+                fr = fr.f_back
+            frames.append(tuple(stack))
+            time.sleep(0.7)
+        if any(x is None for x in samples):
+            return None
+        if all(st == 'S' for st, _t in samples) and samples[0][1] == samples[-1][1] and frames[0] == frames[-1] and frames[0]:
+            return 'thread %d sleeps at %s (no CPU time used over %.1f s, same stack) while the other threads are parked at %r' % (
+                running, ' <- '.join(frames[0][:4]), 0.7 * len(samples), dict(self.waiting))
+        return None
 
     def done(self, tid):
         with self.cv:
@@ -50,8 +97,23 @@ class Scheduler(object):
             with self.cv:
                 t0 = time.time()
                 while not (self.turn is None and len(self.waiting) + len(self.finished) == self.n):
-                    if not self.cv.wait(1.0) and time.time() - t0 > self.watchdog_s:
-                        raise Deadlock('controller: waiting=%r finished=%r turn=%r' % (self.waiting, self.finished, self.turn))
+                    if not self.cv.wait(1.0):
+                        waited = time.time() - t0
+                        if waited > self.watchdog_s:
+                            raise Deadlock('controller: waiting=%r finished=%r turn=%r' % (self.waiting, self.finished, self.turn))
+                        if waited > 3.0 and len(self.waiting) + len(self.finished) == self.n - 1:
+                            # exactly one thread is running and it has been away for seconds on a step that takes microseconds
+                            running = [t for t in range(self.n) if t not in self.waiting and t not in self.finished][0]
+                            self.cv.release()
+                            try:
+                                why = self._diagnose_block(running)
+                            finally:
+                                self.cv.acquire()
+                            if why is not None and not (self.turn is None and len(self.waiting) + len(self.finished) == self.n):
+                                self.blocked = why
+                                self.free_run = True
+                                self.cv.notify_all()
+                                raise Blocked(why)
                 if len(self.finished) == self.n:
                     return
                 enabled = sorted(self.waiting)
@@ -76,6 +138,7 @@ def run_schedule(bodies, prefix, watchdog_s=60.0, chooser=None):
     excs = [None] * len(bodies)
 
     def runner(tid):
+        s.native[tid] = (threading.get_native_id(), threading.get_ident())
         try:
             results[tid] = bodies[tid](lambda who, op: s.step(tid, who, op))
         except BaseException as e:   # noqa
@@ -85,7 +148,10 @@ def run_schedule(bodies, prefix, watchdog_s=60.0, chooser=None):
     threads = [threading.Thread(target=runner, args=(i,), daemon=True) for i in range(len(bodies))]
     for t in threads:
         t.start()
-    s.control()
+    try:
+        s.control()
+    except Blocked:
+        pass        # s.blocked says why; the threads now run freely to their end (the parked one releases what the blocked one waits for)
     for t in threads:
         t.join(watchdog_s)
     return s, results, excs
